@@ -33,13 +33,17 @@ RULE = ("TLC enumerates every level instance of the reference world (every prefi
         "random float angles (uniform, dense near 0, near +-0.05, near multiples of pi/2 and +-2pi) x random targets x "
         "random integer translations.  Variants: cold (moved right after construction) for every case, warm (.vertices / "
         ".shapely_object / contains_point of every reachable shape evaluated before the motion) for the sampled tokens at "
-        "t != 0, the role mixes and every 5th other case (thorough: all).  distinct_nontrivial = distinct (target, t, "
-        "rotation, mix, undo, variant) with a non-identity motion.")
+        "t != 0, the role mixes and every 5th other case (thorough: all).  Aliasing: every case at level scenario / lanelet_network / "
+        "lanelet also on the world in which lanelets 1 and 3 hold one ndarray object as common boundary (sig suffix "
+        "/shared-arrays).  Quick: full turns (-1/+1) only at the two roots and for the sampled tokens.  "
+        "distinct_nontrivial = distinct (target, t, rotation, mix, undo, variant, alias) with a non-identity motion.")
 ASSUMPTIONS = ["stored points are integers |x| <= 26, orientations atan2(s, c) of axis / (3,4,5) tokens; translations integer",
                "tolerance 1e-9 * den * (1 + |x + tx| + |y + ty|) on den * x' (tokens), 1e-9 * scale against math.cos/sin "
                "(float angles), 1e-9 on directions, 1e-9 relative on derived quantities",
                "polygon vertices are compared index-wise (the stored ring starts at the first given vertex, clockwise)",
-               "point-mass velocity components are scalars, not stored points: not asserted to rotate",
+               "point-mass states: position (Image) and the derived heading atan2(velocity_y, velocity) (pm_heading must turn by "
+               "the angle); the velocity components themselves are not asserted; CustomState with velocity components and no "
+               "orientation: position only",
                "functional levels (State / Shape.translate_rotate return a new object): the returned object is observed",
                "exported rectangle corners (public .vertices) are point components rect_corners/<where>: originals read from a "
                "never-moved twin (integers within 1e-9, sizes chosen accordingly), checked against Transform!RectCorners; corner "
@@ -119,6 +123,12 @@ def cases(ctx):
         if (ctx.thorough or len(c["mix"]) < 4 or i % 5 == 0
                 or (c["mode"] == "tok" and tuple(c["rot"]) in sample and c["t"] != [0, 0])):
             out.append(dict(c, variant="warm"))
+    # aliasing variant: lanelets 1 and 3 hold one ndarray object as common boundary; every case that addresses the
+    # scenario, the lanelet network or a lanelet is run on that world as well (same lattice points, same expectations)
+    for c in list(out):
+        if c["level"] in ("scenario", "lanelet_network", "lanelet") and len(c["mix"]) == 4 \
+                and (c["variant"] == "cold" or ctx.thorough):
+            out.append(dict(c, alias="shared-arrays"))
     return out
 
 
@@ -135,20 +145,29 @@ def nontrivial(case):
         if case["angle"] == 0.0 and case["t"] == [0, 0]:
             return None
         ang = case["angle"]
-    return (_key(case["tgt"]), tuple(case["t"]), ang, tuple(case["mix"]), case["undo"], case.get("variant", "cold"))
+    return (_key(case["tgt"]), tuple(case["t"]), ang, tuple(case["mix"]), case["undo"], case.get("variant", "cold"), case.get("alias", "none"))
 
 
 # ---- gamma: the reference world of Transform.tla ------------------------------------------------------------------
-def build(mix):
-    """-> (Scenario, PlanningProblemSet) on integer coordinates; obstacles only for the roles in `mix`."""
+def build(mix, alias="none"):
+    """-> (Scenario, PlanningProblemSet) on integer coordinates; obstacles only for the roles in `mix`.
+    alias = "shared-arrays": lanelet 1 and its left neighbour 3 hold ONE float64 ndarray object as common boundary
+    (same lattice points, only the object identity differs; the Lanelet constructor stores the array it is given)."""
+    import numpy as np
     from crv import gamma as g
     from commonroad.planning.goal import GoalRegion
     from commonroad.planning.planning_problem import PlanningProblem
     from commonroad.scenario.obstacle import EnvironmentObstacle, ObstacleType
-    l1 = g.lanelet_from_polylines(1, [(0, 2), (4, 2), (8, 3)], [(0, 0), (4, 0), (8, 1)], successor=[2],
-                                  stop_line=g.stop_line((8, 1), (8, 3)))
+    def arr(v):
+        return np.array(v, dtype=np.float64)
+    common = arr([(0, 2), (4, 2), (8, 3)])                 # left boundary of lanelet 1 = right boundary of lanelet 3
+    l1 = g.lanelet_from_arrays(1, common, arr([(0, 1), (4, 1), (8, 2)]), arr([(0, 0), (4, 0), (8, 1)]), successor=[2],
+                               stop_line=g.stop_line((8, 1), (8, 3)), adjacent_left=3, adjacent_left_same_direction=True)
     l2 = g.lanelet_from_polylines(2, [(8, 3), (12, 5)], [(8, 1), (12, 3)], predecessor=[1])
-    net = g.network([l1, l2], [g.sign(11, (4, -1))], [g.light(12, (8, 4))])
+    l3 = g.lanelet_from_arrays(3, arr([(0, 4), (4, 4), (8, 5)]), arr([(0, 3), (4, 3), (8, 4)]),
+                               common if alias == "shared-arrays" else common.copy(),
+                               adjacent_right=1, adjacent_right_same_direction=True)
+    net = g.network([l1, l2, l3], [g.sign(11, (4, -1))], [g.light(12, (8, 4))])          # add_lanelet: no deep copy
     sc = g.scenario()
     sc.add_objects(net)
     if "static" in mix:
@@ -165,6 +184,12 @@ def build(mix):
                                                g.set_based_prediction(occ, 1)))
         sc.add_objects(g.dynamic_obstacle_from(
             24, g.rect(4, 2), g.uncertain_init_state(g.rect(20, 10, (-5, 5), _th(3, 4)), _th(4, 3), _th(3, 4))))
+        pm = [g.pm_state(1, (-3, -8), 3, 4), g.pm_state(2, (0, -4), 4, -3)]          # heading = atan2(velocity_y, velocity)
+        sc.add_objects(g.dynamic_obstacle_from(25, g.rect(2, 1), g.init_state(-3, -9, 0.0),
+                                               g.trajectory_prediction_from_states(g.rect(2, 1), pm)))
+        cu = [g.custom_pm_state(1, (-8, -11), 0, 1), g.custom_pm_state(2, (-7, -10), 1, 1)]   # no orientation at all
+        sc.add_objects(g.dynamic_obstacle_from(29, g.circle(1), g.init_state(-8, -12, _th(0, 1)),
+                                               g.trajectory_prediction_from_states(g.circle(1), cu)))
     if "phantom" in mix:
         sc.add_objects(g.phantom_obstacle(26, [(1, g.rect(20, 10, (-10, 0), _th(-3, 4))),
                                                (2, g.polygon([(-12, 2), (-9, 4), (-9, 2)]))]))
@@ -268,6 +293,14 @@ def walk(world, ov=None, mode="full"):
     def state(path, st, kp, ko, group_kind=None):
         st = ov.get(path, st)
         name = _pname(path)
+        if isinstance(getattr(type(st), "orientation", None), property):      # point-mass state: the heading is derived
+            comps.append(["pm_position", path, [tuple(st.position)], []])
+            comps.append(["pm_heading", path, [], [st.orientation]])
+            return
+        if not isinstance(getattr(st, "position", None), Shape) and getattr(st, "orientation", None) is None \
+                and getattr(st, "position", None) is not None and getattr(st, "velocity_y", None) is not None:
+            comps.append(["custom_position", path, [tuple(st.position)], []])  # velocity components are not asserted
+            return
         if getattr(st, "position", None) is not None:
             if isinstance(st.position, Shape):
                 shape_comp(kp, path, st.position, name + "/position", group_kind)
@@ -486,9 +519,10 @@ def execute(case):
     path = _key(case["tgt"])
     level = path[-1][0]
     variant = case.get("variant", "cold")
-    cls = angle_class(case) + "/" + variant
-    twin = build(mix)                      # never moved: derived quantities and exported corners "before" are read here
-    world = build(mix)
+    alias = case.get("alias", "none")
+    cls = angle_class(case) + "/" + variant + ("/" + alias if alias != "none" else "")
+    twin = build(mix, alias)               # never moved: derived quantities and exported corners "before" are read here
+    world = build(mix, alias)
     before, _ = walk(world, mode="touch" if variant == "warm" else "primary")
     tcomps, der0 = walk(twin, mode="full")
     before += [c for c in tcomps if c[0].startswith("rect_corners/")]
@@ -499,7 +533,8 @@ def execute(case):
     base = {"tgt": [list(p) for p in path], "t": list(case["t"]), "rot": list(case["rot"]), "mix": list(mix)}
     kinds = sorted({c[0] for c in before})
     ev = [dict(op="call", tgt=base["tgt"], mix=list(mix), exc=exc, kinds=kinds, level=level,
-               sig="%s/mix=%s/%s" % (level, "".join(r[0] for r in ROLES if r in mix) or "-", variant))]
+               sig="%s/mix=%s/%s%s" % (level, "".join(r[0] for r in ROLES if r in mix) or "-", variant,
+                               "/" + alias if alias != "none" else ""))]
     for k in kinds:
         comps = []
         for kind, p, pts, oris in before:
